@@ -20,7 +20,7 @@ LEVEL = "fault_enumeration"
 SHARDS = {"quick": 16, "thorough": 16}
 MUST = ["cut.cases", "kind.bytes", "kind.bytesio", "kind.file", "kind.realfile", "kind.realfile_update", "kind.shortfile", "kind.socket_closed",
         "kind.socketpair_closed", "empty.cases", "random.cases", "via_definition.cases", "cut.in_header", "cut.in_body",
-        "cut.on_border", "progress.cases", "big.maxsize_cases", "big.beyond20MB_cases", "cli.truncated_runs"]
+        "cut.on_border", "progress.cases", "big.maxsize_cases", "big.beyond20MB_cases", "cli.truncated_runs", "cli.truncated_long_file"]
 RULE = ("fault = end of data at byte offset c of a valid stream; enumerated: every c in 0..len for 6 base streams "
         "(1-4 packets, prefix k in {0,3}, data lengths 1..300) x source kinds {bytes, BytesIO default, "
         "BytesIO r in {1,7,4096}, recording file, short-read file, real file, real file opened for update and handed over partly unflushed, scripted socket closed by peer, real "
@@ -242,8 +242,9 @@ def cli_truncated(ctx, stream):
                     ctx.violation(f"cli/{cmd[0]}/crash/{type(r.exception).__name__}", f"exit {r.exit_code}: {r.exception!r}", wit)
                 elif cmd[0] == "describe-packets":
                     rows = [x for x in holder["rec"].rows if any(ch.isdigit() for cell in x for ch in cell)]
-                    if len(rows) != n and (holder["rec"].rows or holder["rec"].printed):
-                        ctx.violation("cli/describe-packets/lists-incomplete-packet" if len(rows) > n else "cli/describe-packets/misses-packet",
+                    want_rows = n if n <= 10 else 10       # beyond ten packets the listing shows the first five and the last five
+                    if len(rows) != want_rows and (holder["rec"].rows or holder["rec"].printed):
+                        ctx.violation("cli/describe-packets/lists-incomplete-packet" if len(rows) > want_rows else "cli/describe-packets/misses-packet",
                                       f"{len(rows)} packet rows for a file holding {n} complete packets (cut at byte {c})", wit)
                 else:
                     pp = holder["rec"].pprinted
@@ -332,6 +333,11 @@ def run(ctx):
     # ---- the two CLI commands on truncated files: they list / parse complete packets only and terminate ------------------------
     if ctx.mine(5):
         cli_truncated(ctx, bases[2][0])
+    if ctx.mine(6):
+        # a file beyond the listing's elision threshold (13 small packets): head / tail selection must cope with a fragment at the end
+        many = b"".join(bytes(P.create_ccsds_packet(bytes([j] * (1 + j % 3)), apid=(2047, 5, 0)[j % 3], sequence_count=16383 - j)) for j in range(13))
+        cli_truncated(ctx, many)
+        ctx.count("cli.truncated_long_file")
     # ---- empty input on every kind, every entry -------------------------------------------------------------
     for kind, r in kinds:
         for entry in entries:
